@@ -46,6 +46,7 @@ def run(tier):
     # differential part: every catalogue operator that exists as a method, same seeded scenario through both forms
     df = diff_common.forms_pass(ck, ck.seed + 91, 4 if tier == "quick" else 40)
     ck.note("differential_forms_pass", df)
+    ck.note("differential_connectable_forms_pass", diff_common.conn_forms_pass(ck, ck.seed + 93, 12 if tier == "quick" else 150))
     ck.rule = (f"every Ops1.tla scenario ({k} tokens, length 0..{n}; slices over length 0..3) through the fluent method and the piped "
                "operator; non-trivial = output differs from the input")
     ck.nontrivial = sum(1 for g in groups + sl if oc.nontrivial(*g))
@@ -60,6 +61,11 @@ def run(tier):
 
 
 def replay(rec):
+    if rec.get("engine") == "forms-diff" and rec.get("conn"):
+        spec, out = diff_common._conn_job(rec["spec"])
+        same = out["pipe"][1:] == out["fluent"][1:] and out["fluent"][0] == "ok"
+        print("replay:", "the two forms behave identically" if same else f"forms differ: {out}")
+        return 0 if same else 1
     if rec.get("engine") == "forms-diff":
         import json
         spec, out = diff_common._forms_job(rec["spec"])
